@@ -11,6 +11,7 @@ Three request families against scenarios loaded through the real configuration l
 """
 import math
 import shutil
+import os
 import sys
 import threading
 import traceback
@@ -886,7 +887,21 @@ def judge_map(run, spec, req, resp, ramp, case, n_up_before):
             r['k'], r['scale'], r['n_in'], r['n_out'], r['bad_in'], r['bad_out'],
             {a: (round(v['mean'], 2), round(v['p99'], 2), round(v['max'], 2)) if v else None for a, v in r['pos'].items()}))
     run.count('images_with_outliers', 1 if nbad else 0)
-    if (r['bad_in'] > OUTLIER_FRAC * r['n_in'] + OUTLIER_ABS) or (r['bad_out'] > OUTLIER_FRAC * r['n_out'] + OUTLIER_ABS):
+    over = (r['bad_in'] > OUTLIER_FRAC * r['n_in'] + OUTLIER_ABS) or (r['bad_out'] > OUTLIER_FRAC * r['n_out'] + OUTLIER_ABS)
+    bb = r.get('bad_bbox')
+    if over and bb and r['scale'] >= 2.0 and r['bad_out'] == 0 and (
+            (bb[1] == bb[3] and bb[1] in (0, req['size'][1] - 1)) or (bb[0] == bb[2] and bb[0] in (0, req['size'][0] - 1))):
+        # one border row/column of the answer when the map is magnified (>= 2x) beyond the finest level: it shows a
+        # fraction of ONE source pixel at the edge of the fetched tiles; counted, not judged (integrator's decision,
+        # see DESIGN.md 5.3)
+        run.dc('single_border_row_of_a_magnified_map', nbad)
+        over = False
+    if over and spec['shape'] == 'cache_of_cache' and r['bad_out'] == 0 and r['bg_in'] == 0 and r['bad_in'] <= 0.05 * r['n_in']:
+        # seams between upper tiles that were assembled from different lower levels (each upper tile picks its own
+        # level): a band of a few rows/columns matches neither octave after resampling. Weakly judged by design.
+        run.dc('cache_of_cache_seam_between_tiles_from_different_lower_levels', nbad)
+        over = False
+    if over:
         viol('pixel_outside_interval',
              '%d of %d judged pixels (%.2f%%) are outside the colour range of their %.2f px neighbourhood (best octave '
              'k=%d of %r, scale %.2f); inside-extent bad %d (of which background %d), outside-extent bad %d; example %r; '
@@ -1129,6 +1144,11 @@ def gen_exact_requests(rng, spec, n):
 # ======================================================================================================================
 
 def gen_cases(run):
+    # directed cases: the two open known findings (sub-image placement) are reproduced in every run
+    import json as _json
+    with open(os.path.join(os.path.dirname(os.path.abspath(__file__)), 'c01_directed.json')) as f:
+        for c in _json.load(f):
+            yield c
     n = run.pick(700, 12000)
     for i in range(n):
         yield {'i': i, 'family': 'exact' if i % 6 == 5 else 'ramp'}
